@@ -71,26 +71,26 @@ func vfPart(g Geometry, p XY, part int) bool {
 }
 
 var vfC02Shapes = [][2]string{
-	{"POLYGON((0 0,4 0,4 4,0 4,0 0))", "POLYGON((2 2,6 2,6 6,2 6,2 2))"},                                   // overlap
-	{"POLYGON((0 0,4 0,4 4,0 4,0 0))", "POLYGON((4 0,8 0,8 4,4 4,4 0))"},                                   // share an edge
-	{"POLYGON((0 0,4 0,4 4,0 4,0 0))", "POLYGON((4 4,8 4,8 8,4 8,4 4))"},                                   // touch at a vertex
-	{"POLYGON((0 0,8 0,8 8,0 8,0 0))", "POLYGON((0 0,4 0,4 4,0 4,0 0))"},                                   // covers, sharing boundary
-	{"POLYGON((0 0,8 0,8 8,0 8,0 0),(2 2,6 2,6 6,2 6,2 2))", "POLYGON((3 3,5 3,5 5,3 5,3 3))"},             // in the hole
-	{"POLYGON((0 0,8 0,8 8,0 8,0 0),(2 2,6 2,6 6,2 6,2 2))", "POLYGON((2 2,6 2,6 6,2 6,2 2))"},             // fills the hole
-	{"POLYGON((0 0,8 0,8 8,0 8,0 0),(2 2,6 2,6 6,2 6,2 2))", "LINESTRING(-1 4,9 4)"},                       // line across the hole
-	{"POLYGON((0 0,4 0,4 4,0 4,0 0))", "LINESTRING(0 0,4 0,4 2)"},                                         // line along the boundary
-	{"POLYGON((0 0,4 0,4 4,0 4,0 0))", "LINESTRING(1 1,3 3)"},                                             // line inside
-	{"POLYGON((0 0,4 0,4 4,0 4,0 0))", "LINESTRING(2 2,6 2)"},                                             // line leaves
-	{"LINESTRING(0 0,4 4)", "LINESTRING(0 4,4 0)"},                                                        // cross
-	{"LINESTRING(0 0,4 0)", "LINESTRING(2 0,6 0)"},                                                        // collinear overlap
-	{"LINESTRING(0 0,4 0)", "LINESTRING(4 0,4 4)"},                                                        // touch at end points
-	{"LINESTRING(0 0,4 0)", "LINESTRING(2 0,2 4)"},                                                        // end point on interior
-	{"LINESTRING(0 0,4 0,4 4,0 0)", "LINESTRING(0 0,-2 -2)"},                                              // closed line (no boundary) touched at its start
-	{"MULTILINESTRING((0 0,2 2),(2 0,2 4),(2 2,4 4))", "POINT(2 2)"},                                      // mod-2: interior
-	{"MULTILINESTRING((0 0,2 2),(2 2,4 0),(2 2,2 5))", "POINT(2 2)"},                                      // mod-2: three ends, boundary
-	{"POLYGON((0 0,4 0,4 4,0 4,0 0))", "MULTIPOINT(0 0,2 2,9 9)"},                                         // points on vertex, inside, outside
-	{"LINESTRING(0 0,4 0)", "MULTIPOINT(0 0,2 0)"},                                                        // points on end and interior
-	{"MULTIPOLYGON(((0 0,2 0,2 2,0 2,0 0)),((2 2,4 2,4 4,2 4,2 2)))", "LINESTRING(0 2,2 2,4 2)"},          // line through the touching vertex
+	{"POLYGON((0 0,4 0,4 4,0 4,0 0))", "POLYGON((2 2,6 2,6 6,2 6,2 2))"},                         // overlap
+	{"POLYGON((0 0,4 0,4 4,0 4,0 0))", "POLYGON((4 0,8 0,8 4,4 4,4 0))"},                         // share an edge
+	{"POLYGON((0 0,4 0,4 4,0 4,0 0))", "POLYGON((4 4,8 4,8 8,4 8,4 4))"},                         // touch at a vertex
+	{"POLYGON((0 0,8 0,8 8,0 8,0 0))", "POLYGON((0 0,4 0,4 4,0 4,0 0))"},                         // covers, sharing boundary
+	{"POLYGON((0 0,8 0,8 8,0 8,0 0),(2 2,6 2,6 6,2 6,2 2))", "POLYGON((3 3,5 3,5 5,3 5,3 3))"},   // in the hole
+	{"POLYGON((0 0,8 0,8 8,0 8,0 0),(2 2,6 2,6 6,2 6,2 2))", "POLYGON((2 2,6 2,6 6,2 6,2 2))"},   // fills the hole
+	{"POLYGON((0 0,8 0,8 8,0 8,0 0),(2 2,6 2,6 6,2 6,2 2))", "LINESTRING(-1 4,9 4)"},             // line across the hole
+	{"POLYGON((0 0,4 0,4 4,0 4,0 0))", "LINESTRING(0 0,4 0,4 2)"},                                // line along the boundary
+	{"POLYGON((0 0,4 0,4 4,0 4,0 0))", "LINESTRING(1 1,3 3)"},                                    // line inside
+	{"POLYGON((0 0,4 0,4 4,0 4,0 0))", "LINESTRING(2 2,6 2)"},                                    // line leaves
+	{"LINESTRING(0 0,4 4)", "LINESTRING(0 4,4 0)"},                                               // cross
+	{"LINESTRING(0 0,4 0)", "LINESTRING(2 0,6 0)"},                                               // collinear overlap
+	{"LINESTRING(0 0,4 0)", "LINESTRING(4 0,4 4)"},                                               // touch at end points
+	{"LINESTRING(0 0,4 0)", "LINESTRING(2 0,2 4)"},                                               // end point on interior
+	{"LINESTRING(0 0,4 0,4 4,0 0)", "LINESTRING(0 0,-2 -2)"},                                     // closed line (no boundary) touched at its start
+	{"MULTILINESTRING((0 0,2 2),(2 0,2 4),(2 2,4 4))", "POINT(2 2)"},                             // mod-2: interior
+	{"MULTILINESTRING((0 0,2 2),(2 2,4 0),(2 2,2 5))", "POINT(2 2)"},                             // mod-2: three ends, boundary
+	{"POLYGON((0 0,4 0,4 4,0 4,0 0))", "MULTIPOINT(0 0,2 2,9 9)"},                                // points on vertex, inside, outside
+	{"LINESTRING(0 0,4 0)", "MULTIPOINT(0 0,2 0)"},                                               // points on end and interior
+	{"MULTIPOLYGON(((0 0,2 0,2 2,0 2,0 0)),((2 2,4 2,4 4,2 4,2 2)))", "LINESTRING(0 2,2 2,4 2)"}, // line through the touching vertex
 	{"GEOMETRYCOLLECTION(POLYGON((0 0,2 0,2 2,0 2,0 0)),LINESTRING(3 0,5 0),POINT(7 7))", "LINESTRING(1 1,5 -1,7 7)"},
 }
 
